@@ -40,8 +40,10 @@ def gen_ws(rng, must=False):
         s = b" #" + bytes(rng.choice(b"abc {}\"=#") for _ in range(rng.randrange(0, 14))) + b"\n"
     elif r < 0.83:
         s = b";"
-    elif r < 0.9:
+    elif r < 0.87:
         s = b"\n\t\t\t"
+    elif r < 0.9:
+        s = b"\n" * rng.randrange(1, 3) + b"\t" * rng.randrange(6, 14)   # deep indentation: >= 8 tab/newline bytes in a row
     else:
         s = b"" if not must else b" "
     return s
